@@ -1052,3 +1052,22 @@ def rule_wbmisc(text):
             apps.append(_app(rname, text, mm.start(), mm.end(), new, why))
             text = text[:mm.start()] + new + text[mm.end():]
     return text, apps
+
+
+def rule_updmisc(text):
+    """update-path one-offs: std::ptr::eq(a, b.as_ref()); `Some(ref x) = E`; value.to_vec()"""
+    apps = []
+    table = [
+        (r"std\s*::\s*ptr\s*::\s*eq\s*\(\s*(\w+)\s*,\s*(\w+)\s*\.\s*as_ref\s*\(\s*\)\s*\)", r"record_ptr_eq(\1, &\2)", "R-ptreq", "shim: pointer identity (an opaque boolean)"),
+        (r"Some\s*\(\s*ref\s+(\w+)\s*\)\s*=\s*([\w.]+)\s*\{", r"Some(\1) = \2.as_ref() {", "R-refpat", "`Some(ref x) = e` binds a reference into e: same as matching e.as_ref()"),
+        (r"\bvalue\s*\.\s*to_vec\s*\(\s*\)", "slice_to_vec_u8(value)", "R-vec", "shim: <[u8]>::to_vec copies the bytes"),
+    ]
+    for pat, rep, rname, why in table:
+        while True:
+            mm = re.search(pat, text)
+            if not mm:
+                break
+            new = mm.expand(rep)
+            apps.append(_app(rname, text, mm.start(), mm.end(), new, why))
+            text = text[:mm.start()] + new + text[mm.end():]
+    return text, apps
